@@ -11,9 +11,15 @@ def base_worlds(r, n):
     previous revisions that no longer exist."""
     out = []
     kinds = ["fresh", "partial", "handover", "teardown", "archive", "paused", "collision", "prevgone"]
+    fixed = kinds + ["teardown+fin", "archive+fin"]
     for wi in range(n):
-        # every kind at least once, then seeded random
-        kind = kinds[wi] if wi < len(kinds) else r.choice(kinds)
+        # every kind at least once (teardown / archival once finishing within the faulted prefix, once delayed by member
+        # finalizers), then seeded random
+        kind = fixed[wi] if wi < len(fixed) else r.choice(kinds)
+        p_fin = 0.3
+        if wi < len(fixed):
+            p_fin = 1.0 if kind.endswith("+fin") else 0.0
+        kind = kind.split("+")[0]
         cluster = r.random() < 0.2
         okind, ons = (2, 0) if cluster else (1, 1)
         nph = r.choice([1, 2, 3])
@@ -63,7 +69,7 @@ def base_worlds(r, n):
             else:
                 target["life"] = 2
             for m in store:
-                if r.random() < 0.3:
+                if r.random() < p_fin:
                     m["fin"] = True
         elif kind == "paused":
             target["life"] = 1
@@ -75,7 +81,10 @@ def base_worlds(r, n):
                 store.append(member(o, [[9, 50, 500, 1]] if r.random() < 0.4 else [[okind, 10, 100, 1]], 2))
         sets.append(target)
         out.append({"force": False, "store": store, "sets": sl.sort_sets(sets), "next_rv": 50, "next_uid": 60,
-                    "targets": targets, "schedule": [i % len(targets) for i in range(2 * len(targets))],
+                    "targets": targets,
+                    # teardown and archival need up to four passes (delete, confirm gone, finalizer patch, status): all of them are
+                    # inside the prefix whose requests are injection points
+                    "schedule": [i % len(targets) for i in range((4 if kind in ("teardown", "archive") else 2) * len(targets))],
                     "faults": [], "drift": [], "max_rounds": 40, "_kind": kind})
     return out
 
